@@ -300,6 +300,14 @@ def regression_cases():
         out.append(("inline-ns-%d" % len(out), "hpp", inl, fl))
     out.append(("ns-helper-union-field", "hpp", "namespace only_here { union U { int i; float f; }; struct HU { union U u; }; }\n",
                 ["--enable-cxx-namespaces", "--default-non-copy-union-style", "bindgen_wrapper", "--bindgen-wrapper-union", ".*"]))
+    # unions emitted as structs of __BindgenUnionField<T> (no Rust union: --disable-untagged-union, or a member that is not Copy under the
+    # wrapper style) at namespace depth 0, 1 and 2: the helper is named from inside the module
+    wu = ("union W0 { int i; float f; };\nstruct NC { NC(const NC &); ~NC(); int x; };\nunion N0 { NC n; int i; N0(); ~N0(); };\n"
+          "namespace d1 { union W1 { int i; double f; }; struct H1 { W1 w; }; union N1 { NC n; char c; N1(); ~N1(); };\n"
+          " namespace d2 { union W2 { short s; long l; }; union N2 { NC n; long l; N2(); ~N2(); }; struct H2 { W2 w; N2 *p; }; } }\n")
+    for k, fl in enumerate((["--disable-untagged-union"], ["--enable-cxx-namespaces", "--disable-untagged-union"], ["--enable-cxx-namespaces"],
+                            ["--enable-cxx-namespaces", "--default-non-copy-union-style", "manually_drop"], ["--enable-cxx-namespaces", "--with-derive-default", "--impl-debug"])):
+        out.append(("ns-wrapper-unions-%d" % k, "hpp", wu, fl))
     return out
 
 
